@@ -671,6 +671,8 @@ func (w *wrapBuffer) singleRunParagraph(run Output) []Line {
 	w.paragraph = w.paragraph[:0]
 	s := w.line[w.lineUsed : w.lineUsed+1]
 	s[0] = run
+	// a single run is the leftmost one, whatever index it came in with
+	s[0].VisualIndex = 0
 	w.paragraphAppend(s)
 	return w.finalParagraph()
 }
